@@ -80,7 +80,7 @@ ORACLE = {
     'gscon': [(1, ['(*$1 != \'1\')', '(strncmp($1, "O", 1) != 0)', '(strncmp($1, "I", 1) != 0)'])]
              + square(2, ['SLU_SC'], 'SLU_TRLU') + square(3, ['SLU_NC'], 'SLU_TRU'),
     'gsequ': square(1, ['SLU_NC'], 'SLU_GE', nonneg_only=True),
-    'sp_trsv': flag(1, 'LU') + flag(2, 'NTC') + flag(3, 'NU')
+    'sp_trsv': flag(1, 'LlUu') + flag(2, 'NnTtCc') + flag(3, 'UuNn')
                + [(4, ['($4->nrow != $4->ncol)']), (4, ['($4->nrow < 0)']), (5, ['($5->nrow != $5->ncol)']), (5, ['($5->nrow < 0)'])],
     'sp_gemv': [(1, ['(strncmp($1, "N", 1) != 0)', '(strncmp($1, "n", 1) != 0)', '(strncmp($1, "T", 1) != 0)', '(strncmp($1, "t", 1) != 0)',
                      '(strncmp($1, "C", 1) != 0)', '(strncmp($1, "c", 1) != 0)']),
